@@ -198,8 +198,8 @@ theorem fills_tbaseMasked (masks : Bool) (M V : Nat) (bl : Blocking) (hV : 0 < V
     intro i _
     apply fills_cols3 hN01 hN1
     · refine fills_colLoop hIB (Nat.zero_le _) (by simp [Nat.dvd_mul_left]) _ _ (fun j _ => ?_)
-      have := fills_tinterior (N := N) (K := K) (lt := lt) (rt := rt) V i j u 1 nC hu
-      simpa using this
+      have := fills_interior (N := N) (K := K) V i j u 1 nC hu
+      exact mono (by simpa using this)
     · refine fills_colLoopMap hV hN01 hNd _ _ (fun j _ => ?_)
       exact (fills_tblock (rowsFrom i u) (colsAsc j V) 0 _ _ (fun r hr c hc =>
         krange_sufficient lt rt K u V i j r c (mem_rowsFrom.1 hr) (mem_colsAsc.1 hc))).congr
